@@ -12,6 +12,9 @@ RULES = {
     'R-GATHER': 'final_step reaches the record from the generated steps through selection only (slices, gathers, reshape, '
                 'multiplication by exactly one) - so it is one of the generated steps - and error_estimate / final_step '
                 'have exactly the shape of the result',
+    'R-FLOOR': 'with a single finite-difference estimate (nothing to compare it with) the reported error is not proportional to '
+               'the estimate: Richardson._estimate_error keeps a term that depends on the step only, so a value that happens to be '
+               '(near) zero does not come with a (near) zero error estimate (exact-algebra run, value set to 0 afterwards)',
     'R-INFO': 'the namedtuple fields are not permuted: error_estimate is a computed non-negative quantity, final_step a '
               'generated step, index a data dependent row index',
 }
@@ -45,7 +48,7 @@ def run(ctx):
         'identity; both sides of every undetermined branch are analysed.')
     rep.assume('the generated steps are positive (C05 R-STEPSIGN / user base_step > 0)')
     for rid, text in RULES.items():
-        rep.rule(rid, text, 10)
+        rep.rule(rid, text, 10 if rid != 'R-FLOOR' else 2)
     core = ctx.repo.module('core')
     for cls, kw, xshape, fshape, rshape in CASES:
         one(ctx, core, cls, kw, xshape, fshape, rshape)
@@ -53,12 +56,61 @@ def run(ctx):
     for nsteps in (3, 4, 5):
         for cls, kw, xshape, fshape, rshape in CASES[:2] + CASES[6:7] + CASES[9:10]:
             one(ctx, core, cls, kw, xshape, fshape, rshape, nsteps)
+    # full_output switched on after construction (and after a first call): the record must be the same as for an object
+    # built with full_output=True
+    for cls, kw, xshape, fshape, rshape in CASES[:1] + CASES[1:2] + CASES[4:5] + CASES[6:7] + CASES[9:10] + CASES[11:12]:
+        one(ctx, core, cls, kw, xshape, fshape, rshape, late=True)
+    floor(ctx)
     rep.notes['trusted_base'] = ['python ast', 'ndverif abstract interpreter, data-abstract domain, numpy summaries']
 
 
-def one(ctx, core, cls, kw, xshape, fshape, rshape, nsteps=9):
+def floor(ctx):
+    from ..absint import Interp
+    from ..libmodels import Models
+    from ..algebra import Poly
+    from .. import ndarr
     rep = ctx.rep
-    label = '%s/%s/x.shape=%s/f->%s/steps=%d' % (cls, ','.join('%s=%s' % i for i in sorted(kw.items())), xshape, fshape, nsteps)
+    ex = ctx.repo.module('extrapolation')
+    ci = ex.classes.get('Richardson')
+    if ci is None or ci.lookup('_estimate_error') is None:
+        raise AnalysisError('anchor vanished: extrapolation.Richardson._estimate_error')
+    where = ex.where(ci.lookup('_estimate_error')[1])
+    for cols in (1, 2):
+        models = Models()
+        I = Interp(ctx.repo, models)
+        models.bind(I)
+        ndarr.POSITIVE_ATOMS.clear()
+        ndarr.POSITIVE_ATOMS.update({'EPS', 'TINY'} | {'h%d' % c for c in range(cols)})
+        label = 'one estimate row, %d column(s)' % cols
+        try:
+            R = I.get_global('extrapolation', 'Richardson')
+            v = Arr((1, cols), [Poly.sym('v%d' % c) for c in range(cols)])
+            h = Arr((1, cols), [Poly.sym('h%d' % c) for c in range(cols)])
+            err = I.getattr(R, '_estimate_error')(v, v.copy(), h, Arr((1,), [1]))
+            items = err.items() if isinstance(err, Arr) else [err]
+            zero_map = {}
+            for c in range(cols):
+                zero_map['v%d' % c] = Poly.const(0)
+                zero_map['abs(v%d)' % c] = Poly.const(0)
+            at_zero = [Poly.of(e).subs(zero_map) for e in items]
+            bad = [c for c, e in enumerate(at_zero) if e.is_zero()]
+            fact = {'error_estimate': [repr(e)[:120] for e in items[:2]], 'at_value_0': [repr(e)[:80] for e in at_zero[:2]],
+                    'columns_with_vanishing_estimate': bad}
+            rep.check(len(items) == cols and not bad, 'R-FLOOR', 'extrapolation.Richardson._estimate_error', where, fact,
+                      'a step dependent term that survives value = 0', label, key='floor')
+        except InterpRaise as exc:
+            rep.violation('R-FLOOR', 'extrapolation.Richardson._estimate_error', where, {'raises': exc.exc_name, 'message': exc.msg[:100]},
+                          'an error estimate', label, key='floor raises')
+        except (AnalysisError, TypeError, AttributeError) as exc:
+            rep.undecided('R-FLOOR', 'extrapolation.Richardson._estimate_error', exc, label)
+        finally:
+            ndarr.POSITIVE_ATOMS.clear()
+
+
+def one(ctx, core, cls, kw, xshape, fshape, rshape, nsteps=9, late=False):
+    rep = ctx.rep
+    label = '%s/%s/x.shape=%s/f->%s/steps=%d' % (cls, ','.join('%s=%s' % i for i in sorted(kw.items())), xshape, fshape, nsteps) + \
+        ('/full_output set after construction and a first call' if late else '')
     n = 1
     for s in xshape:
         n *= s
@@ -71,8 +123,14 @@ def one(ctx, core, cls, kw, xshape, fshape, rshape, nsteps=9):
         else:
             f = tensor_f(s, n, fshape)
         gen = StepGenModel(num_steps=nsteps)
-        d = C(f, step=gen, full_output=True, **kw)
         x = s.x_array(xshape)
+        if late:
+            d = C(f, step=gen, **kw)
+            d(x)
+            del s.fcalls[:]
+            I.setattr(d, 'full_output', True)
+        else:
+            d = C(f, step=gen, full_output=True, **kw)
         return d(x)
     ex = explore(ctx.repo, body, pinned={'(np.abs(step) > 0).all()': True})
     construct = 'core.%s.__call__' % cls
